@@ -18,7 +18,6 @@ import (
 	"fmt"
 	"go/token"
 	"go/types"
-	"sort"
 
 	"golang.org/x/tools/go/ssa"
 )
@@ -375,13 +374,4 @@ func (c *c20ctx) sharedArgs(s *c20shared, fn *ssa.Function, cc *ssa.CallCommon, 
 			flag("C20/shared-data-read-only", fmt.Sprintf("%s(arg %d)", name, i), pos, r, "a reference reachable by other requests is handed to "+name+", which is not known to leave it unmodified (e.g. slices.Reverse / sort reorder in place)")
 		}
 	}
-}
-
-func sortedRootKeys(m map[string]bool) []string {
-	var out []string
-	for k := range m {
-		out = append(out, k)
-	}
-	sort.Strings(out)
-	return out
 }
